@@ -98,6 +98,9 @@ func literal(s *sim.Src) string {
 // CreateTable produces CREATE TABLE text. fancy 0..10 controls exotic features.
 func CreateTable(s *sim.Src, name string, fancy int, wantWithoutRowid bool, others []string) (string, []string) {
 	ncols := 1 + s.Draw(5, "ncols")
+	if s.Chance(1, 10, "widetable") {
+		ncols = 8 + s.Draw(8, "ncolswide")
+	}
 	if fancy >= 8 && s.Chance(1, 12, "manycols") {
 		ncols = 66 + s.Draw(10, "ncols66") // record header > 127 bytes
 	}
